@@ -333,7 +333,7 @@ def plans_C02(g, tier):
                             g.op(OP_NEW_WATCHED, obj=0), g.monitor(1, g.shape(mock='W', seqar=ar(m2)), w=0, s1=1 if m2 == 2 else 0, s2=1),
                             g.create(2, g.shape(fn=F1, mk1='ANY', seqar=ar(m3), nse=1), obj=0, lo=1, hi=2, s1=1 if m3 == 2 else 0, s2=1),
                             g.create(3, g.shape(fn=F1, mk1='EQ', seqar=0, nse=1), obj=0, k1=1, lo=0, hi=INF)])
-    mon_alpha = calls + [g.op(OP_DELETE_WATCHED, obj=0)] + [g.release(i) for i in range(4)]
+    mon_alpha = calls + [g.op(OP_DELETE_WATCHED, obj=0), g.op(OP_DESTROY_SEQ, s1=0), g.op(OP_DESTROY_SEQ, s1=1)] + [g.release(i) for i in range(4)]  # a sequence object may die first: its steps are then unordered
     mon_plan = dict(name='sel_with_monitor', mask=M_C02, du=0, dm=4 if tier == 'quick' else 6, alphabet=mon_alpha, prefixes=mon_pre)
     if tier == 'quick':
         return [mon_plan, dict(name='sel3', mask=M_C02, du=0, dm=4, alphabet=calls + rel, prefixes=c02_configs(g, ('ANY', 'EQ', 'LT'), [(0, INF), (1, 2)])),
